@@ -25,6 +25,21 @@ theorem C12_sinks_agree (par) (hpar : InOrder par) (conv : Input → Outcome)
   | some g =>
     cases h : (preprocess single list fileLines).isEmpty <;> cases verbose <;> simp_all [List.isEmpty_iff]
 
+/-- **Nothing else in the file**: whatever the output file held before the call (any earlier content of any world), afterwards it
+    holds exactly the lines of this call's pairs – static inputs first, then the generator's, also when the generator is the only
+    input or is empty – and every other file is what it was. -/
+theorem C12_file_replaces_old_content (par) (hpar : InOrder par) (conv : Input → Outcome)
+    (single : Option Input) (list fileLines gen : Option (List Input)) (verbose : Verbose) (w : World) (path : List Char)
+    (hne : allInputs single list fileLines gen ≠ [] ∨ gen.isSome) :
+    let w' := (convert par conv single list fileLines gen (.file path) verbose w).2
+    w'.read path = some (((allInputs single list fileLines gen).map (generate conv)).map renderLine) ∧
+    ∀ other, other ≠ path → w'.read other = w.read other := by
+  have h := (C12_sinks_agree par hpar conv single list fileLines gen verbose w path hne).2.1
+  simp only [World.read, h, List.lookup_cons, beq_self_eq_true, true_and]
+  intro other ho
+  have : (other == path) = false := by simpa using ho
+  simp [this]
+
 /-- The result does not depend on the scheduler: any two executors that honour joblib's contract (results in
     submission order) – whatever their worker count, chunking or completion order – give the same outcome. -/
 theorem C12_schedule_independent (par₁ par₂) (h₁ : InOrder par₁) (h₂ : InOrder par₂) (conv : Input → Outcome)
